@@ -15,6 +15,7 @@ from hxv.ref.resample import resample
 
 FIELD = {"open": 1, "high": 2, "low": 3, "close": 4, "volume": 5}
 import os as _os
+HELPER_DECIMALS = int(_os.environ.get("VERIF_HELPER_DECIMALS", "15"))
 FLOOR = float(_os.environ.get("VERIF_FLOOR", "1e-12"))  # relative float-noise floor added to every budget (the Num error already carries eps-terms)
 OSC = {"RSI", "STOCH", "TSI", "AROON", "ADX"}
 
@@ -36,7 +37,7 @@ def expected(cfg, base, got_col, s0=0, xs=None):
     """-> dict(fields={field: [exp]}, warm={field: (E, L)}, kind=...). xs overrides the input series (C04 fabricated/chained)."""
     cls, kw = cfg["cls"], cfg["kw"]
     r = kw.get("round_value", 4)
-    H = max(4, r)  # helper series are kept at the finer of 4 decimals and the indicator's own round_value
+    H = HELPER_DECIMALS  # helper series are kept as calculated (not rounded): only the indicator's own output carries a rounding
     n = len(base)
     h, l, c, v = series(base, "high"), series(base, "low"), series(base, "close"), series(base, "volume")
     iv = kw.get("input_value", "close")
@@ -223,7 +224,7 @@ def check_supertrend(cfg, base, col, stats):
     r = kw.get("round_value", 4)
     p = kw.get("period", 7)
     h, l, c = series(base, "high"), series(base, "low"), series(base, "close")
-    ref = R.SupertrendRef(h, l, c, p, kw.get("multiplier", 3.0), r, max(4, r))
+    ref = R.SupertrendRef(h, l, c, p, kw.get("multiplier", 3.0), r, HELPER_DECIMALS)
     level = level_of(cfg, base)
     comp = 0
     for i, g in enumerate(col):
